@@ -6,7 +6,7 @@ from fractions import Fraction
 
 from core import Family, q, unq, run_model, run_impl, cmp_tree
 
-GEN_FILES = ["DispatchersGen.v"]
+GEN_FILES = ["DispatchersGen.v", "FunctoolsGen.v"]
 TRUSTED = [
     "Model/Dispatchers.v (vmap as 'stack f over the leading axis of the marked arguments'; _base_productmap as the fold of single vmaps over the reversed positions; vmap_1d; spacemap) is hand-written: tied by families productmap / vmap_1d / spacemap",
     "Model/Functools.v (Python argument binding without defaults; allow_only_kwargs, allow_args, convert_kwargs_to_args) is hand-written: tied by family wrappers",
